@@ -18,7 +18,8 @@ BlockAlg(m) == m[1]
 BlockKey(m) == SubSeq(m, 2, Len(m) - 2)
 \* PKCS5-style padding to a multiple of 8 octets (RFC 6637 section 8)
 Pkcs5Pad(m) == LET n == 8 - (Len(m) % 8) IN m \o [k \in 1..n |-> n]
-Pkcs5OK(p) == Len(p) > 0 /\ Len(p) % 8 = 0 /\ p[Len(p)] \in 1..8 /\ p[Len(p)] <= Len(p)
+\* (RFC 6637 section 8 also allows padding the block to a fixed 40 octets, i.e. more than 8 padding octets)
+Pkcs5OK(p) == Len(p) > 0 /\ Len(p) % 8 = 0 /\ p[Len(p)] >= 1 /\ p[Len(p)] <= Len(p)
               /\ \A k \in (Len(p) - p[Len(p)] + 1)..Len(p) : p[k] = p[Len(p)]
 Pkcs5Strip(p) == SubSeq(p, 1, Len(p) - p[Len(p)])
 
